@@ -66,5 +66,232 @@ func runUnits(c *core.Ctx) []core.Obligation {
 					"(a search radius computed this way is too small and true results are pruned); use ChordAngle.Add/Sub or add s1.Angle values"))
 		})
 	}
+	// the span of a longitude interval is wrap-aware (Lo > Hi for an interval that crosses the antimeridian): outside package
+	// s1 it is obtained with Length(), never as Hi - Lo
+	nraw := 0
+	for _, fn := range c.GeoFuncs() {
+		if fn.Pkg != nil && fn.Pkg.Pkg.Name() == "s1" {
+			continue
+		}
+		n := 0
+		core.AllInstrs(fn, func(in ssa.Instruction) {
+			bo, ok := in.(*ssa.BinOp)
+			if !ok || bo.Op != token.SUB {
+				return
+			}
+			hi, ok1 := core.AsFieldLoad(bo.X)
+			lo, ok2 := core.AsFieldLoad(bo.Y)
+			if !ok1 || !ok2 || hi.Name != "Hi" || lo.Name != "Lo" || hi.Struct == nil || lo.Struct == nil {
+				return
+			}
+			if hi.Struct.Obj().Name() != "Interval" || hi.Struct.Obj().Pkg() == nil || hi.Struct.Obj().Pkg().Name() != "s1" || lo.Struct != hi.Struct {
+				return
+			}
+			n++
+			nraw++
+			construct := fmt.Sprintf("%s:raw-longitude-span#%d", core.FuncName(fn), n)
+			if core.FuncName(fn) == "(s2.Rect).CapBound" {
+				obs = append(obs, core.Ob("R-UNITS", construct, c.Pos(bo.Pos()), core.FuncName(fn), core.Discharged,
+					"named exception: Rect.CapBound reduces Hi - Lo with math.Remainder / compares it with 2*Pi itself (as in the C++ original)"))
+				return
+			}
+			obs = append(obs, core.Ob("R-UNITS", construct, c.Pos(bo.Pos()), core.FuncName(fn), core.Violated,
+				"the span of a longitude interval is computed as Hi - Lo: for an interval that crosses the antimeridian (Lo > Hi) this is negative, so a test such as 'spans less than 180 degrees' is true for a loop that wraps more than half way round; use Interval.Length()"))
+		})
+	}
+	_ = nraw
+	// a chord LENGTH (|x - y|) is not an angle: it may be converted to s1.Angle only through asin/atan2 (Distance, Angle),
+	// and to s1.ChordAngle only as the SQUARED length
+	for _, fn := range c.GeoFuncs() {
+		if fn.Pkg != nil && fn.Pkg.Pkg.Name() == "s1" {
+			continue
+		}
+		n := 0
+		core.AllInstrs(fn, func(in ssa.Instruction) {
+			var src ssa.Value
+			var to types.Type
+			switch x := in.(type) {
+			case *ssa.Convert:
+				src, to = x.X, x.Type()
+			case *ssa.ChangeType:
+				src, to = x.X, x.Type()
+			default:
+				return
+			}
+			named, ok := to.(*types.Named)
+			if !ok || named.Obj().Pkg() == nil || named.Obj().Pkg().Name() != "s1" || (named.Obj().Name() != "Angle" && named.Obj().Name() != "ChordAngle") {
+				return
+			}
+			call, ok := src.(*ssa.Call)
+			if !ok || core.StaticCallee(call) == nil {
+				return
+			}
+			callee := core.StaticCallee(call).Name()
+			if callee != "Norm" && callee != "Norm2" {
+				return
+			}
+			// of a difference of two vectors
+			arg := call.Call.Args[0]
+			diff, isCall := arg.(*ssa.Call)
+			if !isCall || core.StaticCallee(diff) == nil || core.StaticCallee(diff).Name() != "Sub" {
+				return
+			}
+			n++
+			construct := fmt.Sprintf("%s:chord-length-as-angle#%d", core.FuncName(fn), n)
+			switch {
+			case named.Obj().Name() == "ChordAngle" && callee == "Norm2":
+				obs = append(obs, core.Ob("R-UNITS", construct, c.Pos(in.Pos()), core.FuncName(fn), core.Discharged, "a squared chord length is what a ChordAngle holds"))
+			default:
+				obs = append(obs, core.Ob("R-UNITS", construct, c.Pos(in.Pos()), core.FuncName(fn), core.Violated,
+					fmt.Sprintf("|x - y| (%s of a difference of two points) is converted directly to s1.%s: a chord length is smaller than the angle it subtends (by about d^3/24), so a tolerance or distance derived from it is too small for long edges", callee, named.Obj().Name())))
+			}
+		})
+	}
+	obs = append(obs, unitsScaleAndWrap(c)...)
+	return obs
+}
+
+// unitsScaleAndWrap: two more unit slips.
+//
+// (chordangle-scale, after round-6 seed C20-r6m1: `scale * ChordAngleFromAngle(tol)` instead of
+// `ChordAngleFromAngle(scale * tol)`) a ChordAngle is a SQUARED chord length; multiplying or dividing it by a factor
+// that was derived for the angle scales the angle by the square root of that factor only, so a tolerance shrunk this
+// way is larger than intended. Outside package s1 no ChordAngle is the result of a built-in * or /.
+//
+// (longitude-wrap, after round-6 seed C10-r6m1: Cap.RectBound builds its longitude interval from
+// lngCenter -/+ angle without math.Remainder) the endpoints of a longitude interval live in [-Pi, Pi]; the sum or
+// difference of a longitude and an angle leaves that range near the antimeridian, so it may become an endpoint
+// (a store into Interval.Lo/Hi, an argument of s1.IntervalFromEndpoints, a field of an s1.Interval literal) only
+// after math.Remainder(x, 2*Pi).
+func unitsScaleAndWrap(c *core.Ctx) []core.Obligation {
+	var obs []core.Obligation
+	scaled, wrapped := 0, 0
+	isS1Interval := func(t types.Type) bool {
+		if p, ok := t.(*types.Pointer); ok {
+			t = p.Elem()
+		}
+		n, ok := t.(*types.Named)
+		return ok && n.Obj().Name() == "Interval" && n.Obj().Pkg() != nil && n.Obj().Pkg().Name() == "s1"
+	}
+	var isLongitude func(v ssa.Value, depth int) bool
+	isLongitude = func(v ssa.Value, depth int) bool {
+		if depth > 4 {
+			return false
+		}
+		v = core.StripConv(v)
+		switch x := v.(type) {
+		case *ssa.Call:
+			f := core.StaticCallee(x)
+			if f == nil {
+				return false
+			}
+			if f.Name() == "longitude" {
+				return true
+			}
+			if f.Name() == "Radians" && len(x.Call.Args) == 1 {
+				return isLongitude(x.Call.Args[0], depth+1)
+			}
+		case *ssa.Phi:
+			return false
+		default:
+			if fr, ok := core.AsFieldLoad(v); ok && fr.Name == "Lng" {
+				return true
+			}
+		}
+		return false
+	}
+	for _, fn := range c.GeoFuncs() {
+		if fn.Pkg != nil && fn.Pkg.Pkg.Name() == "s1" {
+			continue
+		}
+		ns, nw := 0, 0
+		core.AllInstrs(fn, func(in ssa.Instruction) {
+			bo, ok := in.(*ssa.BinOp)
+			if !ok {
+				return
+			}
+			if (bo.Op == token.MUL || bo.Op == token.QUO) && isChordAngle(bo.Type()) {
+				ns++
+				scaled++
+				// 0.5 * chord^2 converted to a plain float64 is the height of the cap (an exact identity), not a scaled distance
+				toFloat := len(*bo.Referrers()) > 0
+				for _, r := range *bo.Referrers() {
+					var to types.Type
+					switch cv := r.(type) {
+					case *ssa.Convert:
+						to = cv.Type()
+					case *ssa.ChangeType:
+						to = cv.Type()
+					default:
+						toFloat = false
+					}
+					if to != nil {
+						if b, ok := to.(*types.Basic); !ok || b.Kind() != types.Float64 {
+							toFloat = false
+						}
+					}
+				}
+				if toFloat {
+					obs = append(obs, core.Ob("R-UNITS", fmt.Sprintf("%s:chordangle-scale#%d", core.FuncName(fn), ns), c.Pos(bo.Pos()), core.FuncName(fn), core.Discharged,
+						"the product leaves the ChordAngle type at once (float64): half the squared chord length is the cap height, an exact identity"))
+					return
+				}
+				obs = append(obs, core.Ob("R-UNITS", fmt.Sprintf("%s:chordangle-scale#%d", core.FuncName(fn), ns), c.Pos(bo.Pos()), core.FuncName(fn), core.Violated,
+					"a ChordAngle is multiplied (divided) with the built-in "+bo.Op.String()+": it holds a squared chord length, so a factor meant for the angle changes the angle by its square root only - "+
+						"a tolerance scaled down this way stays larger than the scale factor promises; scale the s1.Angle before converting"))
+				return
+			}
+			if bo.Op != token.ADD && bo.Op != token.SUB {
+				return
+			}
+			if b, ok := bo.Type().Underlying().(*types.Basic); !ok || b.Info()&types.IsFloat == 0 {
+				return
+			}
+			if !isLongitude(bo.X, 0) && !isLongitude(bo.Y, 0) {
+				return
+			}
+			// where does the raw sum go?
+			var sink func(v ssa.Value, depth int) string
+			sink = func(v ssa.Value, depth int) string {
+				if depth > 3 {
+					return ""
+				}
+				for _, r := range *v.Referrers() {
+					switch u := r.(type) {
+					case *ssa.Store:
+						if u.Val != v {
+							continue
+						}
+						if fr, ok := core.AsFieldAddr(u.Addr); ok && (fr.Name == "Lo" || fr.Name == "Hi") && fr.Struct != nil && isS1Interval(fr.Struct) {
+							return "stored into Interval." + fr.Name
+						}
+					case *ssa.Call:
+						if f := core.StaticCallee(u); f != nil && f.Name() == "IntervalFromEndpoints" {
+							return "given to s1.IntervalFromEndpoints"
+						}
+					case *ssa.Convert:
+						if s := sink(u, depth+1); s != "" {
+							return s
+						}
+					case *ssa.ChangeType:
+						if s := sink(u, depth+1); s != "" {
+							return s
+						}
+					}
+				}
+				return ""
+			}
+			nw++
+			wrapped++
+			key := fmt.Sprintf("%s:longitude-wrap#%d", core.FuncName(fn), nw)
+			if where := sink(bo, 0); where != "" {
+				obs = append(obs, core.Ob("R-UNITS", key, c.Pos(bo.Pos()), core.FuncName(fn), core.Violated,
+					"a longitude plus/minus an angle is "+where+" without math.Remainder(x, 2*Pi): within that angle of the antimeridian the endpoint leaves [-Pi, Pi], the interval is not the wrapped one, and points on the far side of the antimeridian fall outside the bound"))
+			} else {
+				obs = append(obs, core.Ob("R-UNITS", key, c.Pos(bo.Pos()), core.FuncName(fn), core.Discharged, "the sum does not become an interval endpoint directly (it is reduced with math.Remainder or used otherwise)"))
+			}
+		})
+	}
+	obs = append(obs, core.Ob("R-UNITS", "scale-and-wrap:scan", "-", "", core.Discharged, fmt.Sprintf("%d ChordAngle products/quotients outside package s1; %d sums of a longitude and an angle examined", scaled, wrapped)))
 	return obs
 }
